@@ -6,6 +6,9 @@ import Driver.AtrestDrv
 import Driver.CodecDrv
 import Driver.InviteDrv
 import Driver.KnowDrv
+import Driver.AppMsgDrv
+import Driver.MediaDrv
+import Driver.CrashCoreDrv
 
 def main (args : List String) : IO UInt32 := do
   match args with
@@ -17,4 +20,7 @@ def main (args : List String) : IO UInt32 := do
   | ["codec"] => Driver.CodecDrv.main; return 0
   | ["invite"] => Driver.InviteDrv.main; return 0
   | ["know"] => Driver.KnowDrv.main; return 0
+  | ["appmsg"] => Driver.AppMsgDrv.main; return 0
+  | ["mediaw"] => Driver.MediaDrv.main; return 0
+  | ["crashcore"] => Driver.CrashCoreDrv.main; return 0
   | _ => IO.eprintln "usage: mdkdrv store < ops"; return 2
